@@ -18,9 +18,9 @@ import (
 	"github.com/nspcc-dev/neo-go/pkg/util"
 	"github.com/nspcc-dev/neofs-node/pkg/local_object_storage/blobstor/common"
 	"github.com/nspcc-dev/neofs-node/pkg/local_object_storage/blobstor/fstree"
+	"github.com/nspcc-dev/neofs-sdk-go/checksum"
 	apistatus "github.com/nspcc-dev/neofs-sdk-go/client/status"
 	cid "github.com/nspcc-dev/neofs-sdk-go/container/id"
-	"github.com/nspcc-dev/neofs-sdk-go/checksum"
 	"github.com/nspcc-dev/neofs-sdk-go/object"
 	oid "github.com/nspcc-dev/neofs-sdk-go/object/id"
 	"github.com/nspcc-dev/neofs-sdk-go/user"
@@ -38,10 +38,10 @@ const combinedDataOff = 2 + 32 + 4
 // treeCfg is the configuration of one FSTree instance (all public options).
 type treeCfg struct {
 	Depth    int    `json:"depth"`
-	Cnt      int    `json:"cnt"`      // combinedCountLimit
-	SzLim    int    `json:"szlim"`    // combinedSizeLimit
-	Thr      int    `json:"thr"`      // combinedSizeThreshold
-	Writer   string `json:"writer"`   // "linux" (Init => O_TMPFILE batching writer) | "generic" (no Init)
+	Cnt      int    `json:"cnt"`    // combinedCountLimit
+	SzLim    int    `json:"szlim"`  // combinedSizeLimit
+	Thr      int    `json:"thr"`    // combinedSizeThreshold
+	Writer   string `json:"writer"` // "linux" (Init => O_TMPFILE batching writer) | "generic" (no Init)
 	NoSync   bool   `json:"nosync"`
 	Interval int    `json:"interval"` // combinedWriteInterval, ms
 }
@@ -74,10 +74,10 @@ type universe struct {
 	salt  int64
 	cnr   cid.ID
 	owner user.ID
-	ids   []oid.ID          // index a-1
-	addrs []oid.Address     // index a-1
-	byStr map[string]int    // address string -> a
-	objs  map[[2]int]*objV  // (a,v) -> variant
+	ids   []oid.ID         // index a-1
+	addrs []oid.Address    // index a-1
+	byStr map[string]int   // address string -> a
+	objs  map[[2]int]*objV // (a,v) -> variant
 	spec  func(a, v int) objSpec
 }
 
